@@ -14,12 +14,8 @@
 #include "translated.h"
 
 #define MAXT 3          /* tests per run (each harness fixes its own number <= MAXT) */
-#ifndef SLEN
-#define SLEN 2          /* symbolic bytes per text field */
-#endif
-#ifndef LINEMASK
-#define LINEMASK 63
-#endif
+#define SLEN 2          /* symbolic bytes per text field (the finding demonstrations below spell out inputs for 2) */
+#define LINEMASK 63     /* line numbers 0..63 */
 
 /* ---------------------------------------------------------------- capture of the output seam
  * Every byte written through PlatformSpecificFPuts is handed, in order, to the stream reader below (the reader is a
@@ -109,7 +105,8 @@ static void txt_cat_dec(struct txt* t, uint32_t v) { unsigned d = tens_of(v); if
 #define FCAP (SLEN + 1)
 static uint32_t NT;                                  /* number of tests of this run */
 static uint32_t t_ignored[MAXT], t_fails[MAXT], t_line[MAXT], t_fline[MAXT];
-static uint8_t t_group[MAXT][FCAP], t_name[MAXT][FCAP], t_file[MAXT][FCAP], t_ffile[MAXT][FCAP], t_fmsg[MAXT][FCAP];
+struct fld { uint8_t s[FCAP]; };                    /* (no two-dimensional arrays: CBMC 6.11 misreads rows of a uint8_t[][] through a pointer) */
+static struct fld t_group[MAXT], t_name[MAXT], t_file[MAXT], t_ffile[MAXT], t_fmsg[MAXT];
 static struct txt t_group_t[MAXT], t_name_t[MAXT], t_fmsg_t[MAXT], t_location_t[MAXT];     /* the texts a reader of the stream must get back */
 
 static uint64_t t_len(const uint8_t* s) { uint64_t n = 0; while (s[n]) n++; return n; }
@@ -154,18 +151,18 @@ enum { A_NONE, A_BAD, A_PREFIX_FIRST, A_TOK, A_NAME_END, A_ATTR_END, A_EMIT, A_E
 #define BAD GO(S_TEXT, A_BAD)
 #define TXT GO(S_TEXT, A_NONE)
 #define VAL GO(S_VALUE, A_EMIT)
-static const uint8_t TABLE[NSTATES][NCLASSES] = {
+static const uint8_t TABLE[NSTATES * NCLASSES] = {
   /*              NL                     CR    SP                       EQ                       QUOTE                    BAR                 LB   RB                       HASH                          LETTER                       OTHER */
-  /* BOL     */ { GO(S_BOL, A_NONE),     TXT,  TXT,                     TXT,                     TXT,                     TXT,                TXT, TXT,                     GO(S_PREFIX, A_PREFIX_FIRST), TXT,                         TXT },
-  /* PREFIX  */ { GO(S_BOL, A_NONE),     TXT,  TXT,                     TXT,                     TXT,                     TXT,                TXT, TXT,                     TXT,                          TXT,                         TXT },   /* (a matching prefix character is handled before the table) */
-  /* TEXT    */ { GO(S_BOL, A_NONE),     TXT,  TXT,                     TXT,                     TXT,                     TXT,                TXT, TXT,                     TXT,                          TXT,                         TXT },
-  /* MSGNAME */ { BAD,                   BAD,  GO(S_ATTR, A_NAME_END),  BAD,                     BAD,                     BAD,                BAD, GO(S_CLOSE, A_NAME_END), BAD,                          GO(S_MSGNAME, A_TOK),        BAD },
-  /* ATTR    */ { BAD,                   BAD,  BAD,                     GO(S_QUOTE, A_ATTR_END), BAD,                     BAD,                BAD, BAD,                     BAD,                          GO(S_ATTR, A_TOK),           BAD },
-  /* QUOTE   */ { BAD,                   BAD,  BAD,                     BAD,                     GO(S_VALUE, A_NONE),     BAD,                BAD, BAD,                     BAD,                          BAD,                         BAD },
-  /* VALUE   */ { BAD,                   BAD,  VAL,                     VAL,                     GO(S_AFTER, A_VAL_END),  GO(S_ESC, A_NONE),  BAD, BAD,                     VAL,                          VAL,                         VAL },
-  /* ESC     */ { BAD,                   BAD,  BAD,                     BAD,                     VAL,                     VAL,                VAL, VAL,                     BAD,                          GO(S_VALUE, A_EMIT_LETTER),  BAD },
-  /* AFTER   */ { BAD,                   BAD,  GO(S_ATTR, A_TOK_BEGIN), BAD,                     BAD,                     BAD,                BAD, GO(S_CLOSE, A_NONE),     BAD,                          BAD,                         BAD },
-  /* CLOSE   */ { GO(S_BOL, A_DELIVER),  BAD,  BAD,                     BAD,                     BAD,                     BAD,                BAD, BAD,                     BAD,                          BAD,                         BAD },
+  /* BOL     */   GO(S_BOL, A_NONE),     TXT,  TXT,                     TXT,                     TXT,                     TXT,                TXT, TXT,                     GO(S_PREFIX, A_PREFIX_FIRST), TXT,                         TXT,  
+  /* PREFIX  */   GO(S_BOL, A_NONE),     TXT,  TXT,                     TXT,                     TXT,                     TXT,                TXT, TXT,                     TXT,                          TXT,                         TXT,     /* (a matching prefix character is handled before the table) */
+  /* TEXT    */   GO(S_BOL, A_NONE),     TXT,  TXT,                     TXT,                     TXT,                     TXT,                TXT, TXT,                     TXT,                          TXT,                         TXT,  
+  /* MSGNAME */   BAD,                   BAD,  GO(S_ATTR, A_NAME_END),  BAD,                     BAD,                     BAD,                BAD, GO(S_CLOSE, A_NAME_END), BAD,                          GO(S_MSGNAME, A_TOK),        BAD,  
+  /* ATTR    */   BAD,                   BAD,  BAD,                     GO(S_QUOTE, A_ATTR_END), BAD,                     BAD,                BAD, BAD,                     BAD,                          GO(S_ATTR, A_TOK),           BAD,  
+  /* QUOTE   */   BAD,                   BAD,  BAD,                     BAD,                     GO(S_VALUE, A_NONE),     BAD,                BAD, BAD,                     BAD,                          BAD,                         BAD,  
+  /* VALUE   */   BAD,                   BAD,  VAL,                     VAL,                     GO(S_AFTER, A_VAL_END),  GO(S_ESC, A_NONE),  BAD, BAD,                     VAL,                          VAL,                         VAL,  
+  /* ESC     */   BAD,                   BAD,  BAD,                     BAD,                     VAL,                     VAL,                VAL, VAL,                     BAD,                          GO(S_VALUE, A_EMIT_LETTER),  BAD,  
+  /* AFTER   */   BAD,                   BAD,  GO(S_ATTR, A_TOK_BEGIN), BAD,                     BAD,                     BAD,                BAD, GO(S_CLOSE, A_NONE),     BAD,                          BAD,                         BAD,  
+  /* CLOSE   */   GO(S_BOL, A_DELIVER),  BAD,  BAD,                     BAD,                     BAD,                     BAD,                BAD, BAD,                     BAD,                          BAD,                         BAD,  
 };
 /* the message being read: its name, and per attribute its name and decoded value */
 static uint32_t R_state, R_k, R_nattr, R_kind, R_attr0, R_attr1, R_attr2, R_malformed, R_pending, R_lost;
@@ -181,7 +178,7 @@ static uint32_t class_of(uint8_t c) {
 }
 static void reader_step(uint8_t c) {
   uint32_t s = R_state < NSTATES ? R_state : S_TEXT, cls = class_of(c);
-  uint32_t e = (s == S_PREFIX && c == (uint8_t)PREFIX[R_k < 11 ? R_k : 0]) ? (R_k == 10 ? GO(S_MSGNAME, A_MSG_BEGIN) : GO(S_PREFIX, A_PREFIX_NEXT)) : TABLE[s][cls];
+  uint32_t e = (s == S_PREFIX && c == (uint8_t)PREFIX[R_k < 11 ? R_k : 0]) ? (R_k == 10 ? GO(S_MSGNAME, A_MSG_BEGIN) : GO(S_PREFIX, A_PREFIX_NEXT)) : TABLE[s * NCLASSES + cls];
   uint32_t act = e >> 4, ns = e & 15;
   uint32_t w = W_NONE;
   uint8_t d = c;
@@ -236,12 +233,8 @@ static void on_message(void) {
       if (!C_test_open || !named || n != 3 || R_attr1 != A_MESSAGE || R_attr2 != A_DETAILS || !txt_eq(&R_val0, &C_tname)) C_bad_structure = 1;
       C_failed_seen++;
       for (uint32_t i = 0; i < MAXT; i++) if (i == C_ti && i < NT && n == 3) {
-#ifndef NO_LOC
         if (!txt_eq(&R_val1, &t_location_t[i])) C_bad_value = 1;          /* where it failed */
-#endif
-#ifndef NO_MSG
         if (!txt_eq(&R_val2, &t_fmsg_t[i])) C_bad_value = 1;              /* the failure message */
-#endif
       }
       break;
     case K_TEST_FINISH:
@@ -285,10 +278,12 @@ HARNESS(harness_escape_roundtrip) {
       esc = 0;
       uint8_t d = c;
       if (c == 'n') d = '\n'; else if (c == 'r') d = '\r'; else if (!(c == '\'' || c == '|' || c == '[' || c == ']')) illegal = 1;
-      if (n < ESCLEN) dec[n] = d; n++;
+      if (n < ESCLEN) dec[n] = d;
+      n++;
     } else if (c == '|') esc = 1;
     else if (c == '\'' || c == '[' || c == ']' || c == '\n' || c == '\r') illegal = 1;
-    else { if (n < ESCLEN) dec[n] = c; n++; }
+    else { if (n < ESCLEN) dec[n] = c;
+           n++; }
   }
   OBSERVE(out_len);
   CHECK(!illegal && !esc, "an escaped value contains no raw ' [ ] | or line break and no dangling |");
@@ -303,28 +298,28 @@ static void set_up_run(const int n, const uint8_t* raw, const uint8_t* lines, co
   NT = (uint32_t)n;
   for (int i = 0; i < n; i++) {
     const uint8_t* r = raw + i * 5 * SLEN;
-    FIELD(t_group[i], r, 0); FIELD(t_name[i], r, SLEN); FIELD(t_file[i], r, 2 * SLEN); FIELD(t_ffile[i], r, 3 * SLEN); FIELD(t_fmsg[i], r, 4 * SLEN);
+    FIELD(t_group[i].s, r, 0); FIELD(t_name[i].s, r, SLEN); FIELD(t_file[i].s, r, 2 * SLEN); FIELD(t_ffile[i].s, r, 3 * SLEN); FIELD(t_fmsg[i].s, r, 4 * SLEN);
     t_line[i] = lines[2 * i] & LINEMASK; t_fline[i] = lines[2 * i + 1] & LINEMASK;
     t_ignored[i] = kinds[i] == 2; t_fails[i] = kinds[i] == 1;                 /* 0 pass, 1 fail, 2 ignored */
-    txt_clear(&t_group_t[i]); txt_cat(&t_group_t[i], t_group[i], SLEN);
-    txt_clear(&t_name_t[i]); txt_cat(&t_name_t[i], t_name[i], SLEN);
-    txt_clear(&t_fmsg_t[i]); txt_cat(&t_fmsg_t[i], t_fmsg[i], SLEN);
+    txt_clear(&t_group_t[i]); txt_cat(&t_group_t[i], t_group[i].s, SLEN);
+    txt_clear(&t_name_t[i]); txt_cat(&t_name_t[i], t_name[i].s, SLEN);
+    txt_clear(&t_fmsg_t[i]); txt_cat(&t_fmsg_t[i], t_fmsg[i].s, SLEN);
     /* the location text of a failure: "<file>:<line>", preceded by "TEST failed (<test file>:<test line>): " when the
      * failing check is not inside the test's own body (another file, or a line before the test) */
     struct txt* l = &t_location_t[i];
     txt_clear(l);
-    if (!t_eq(t_file[i], t_ffile[i]) || t_fline[i] < t_line[i]) {
-      txt_cat(l, (const uint8_t*)"TEST failed (", 13); txt_cat(l, t_file[i], SLEN); txt_add(l, ':'); txt_cat_dec(l, t_line[i]); txt_cat(l, (const uint8_t*)"): ", 3);
+    if (!t_eq(t_file[i].s, t_ffile[i].s) || t_fline[i] < t_line[i]) {
+      txt_cat(l, (const uint8_t*)"TEST failed (", 13); txt_cat(l, t_file[i].s, SLEN); txt_add(l, ':'); txt_cat_dec(l, t_line[i]); txt_cat(l, (const uint8_t*)"): ", 3);
     }
-    txt_cat(l, t_ffile[i], SLEN); txt_add(l, ':'); txt_cat_dec(l, t_fline[i]);
+    txt_cat(l, t_ffile[i].s, SLEN); txt_add(l, ':'); txt_cat_dec(l, t_fline[i]);
   }
 }
 static void drive_and_check(const int n) {
   uint32_t groups = 0;
   for (int i = 0; i < n; i++) {
-    h_set_test((uint32_t)i, t_ignored[i], t_group[i], t_name[i], t_file[i], t_line[i]);
-    if (t_fails[i]) h_set_failure((uint32_t)i, t_ffile[i], t_fline[i], t_fmsg[i]);
-    if (i == 0 || !t_eq(t_group[i - 1], t_group[i])) groups++;       /* a group = maximal run of consecutive tests of one group name */
+    h_set_test((uint32_t)i, t_ignored[i], t_group[i].s, t_name[i].s, t_file[i].s, t_line[i]);
+    if (t_fails[i]) h_set_failure((uint32_t)i, t_ffile[i].s, t_fline[i], t_fmsg[i].s);
+    if (i == 0 || !t_eq(t_group[i - 1].s, t_group[i].s)) groups++;       /* a group = maximal run of consecutive tests of one group name */
   }
   to_reader = 1; R_state = S_BOL; words_init();
   h_run((uint32_t)n);
@@ -351,10 +346,10 @@ static void body_stream(const int n, const int KINDS) {
   set_up_run(n, raw, lines, kinds);
   for (int i = 0; i < n; i++) {
 #ifdef KF_C20_1   /* known finding: the test's file name inside "TEST failed (...)" is written unescaped */
-    if (t_fails[i] && (!t_eq(t_file[i], t_ffile[i]) || t_fline[i] < t_line[i])) ASSUME(!t_has_meta(t_file[i]));
+    if (t_fails[i] && (!t_eq(t_file[i].s, t_ffile[i].s) || t_fline[i] < t_line[i])) ASSUME(!t_has_meta(t_file[i].s));
 #endif
 #ifdef KF_C20_2   /* known finding: a group with an empty name gets a suite start but no finish */
-    ASSUME(t_group[i][0] != 0);
+    ASSUME(t_group[i].s[0] != 0);
 #endif
   }
   drive_and_check(n);
